@@ -94,6 +94,14 @@ def gcirc(ra1, dec1, ra2, dec2, units=2):
     separations.  See:
     https://en.wikipedia.org/wiki/Great-circle_distance
     """
+    #
+    # Integer input is promoted to double precision first: numpy would
+    # otherwise work in half or single precision for 8- and 16-bit integers,
+    # and differences of unsigned integers wrap around.
+    #
+    ra1, dec1, ra2, dec2 = [np.asarray(v, dtype=np.float64)
+                            if np.asarray(v).dtype.kind in 'iub' else v
+                            for v in (ra1, dec1, ra2, dec2)]
     if units == 0:
         rarad1 = ra1
         dcrad1 = dec1
